@@ -4,18 +4,24 @@
     ledger/shelley/rules.go  (Shelley; Allegra forwards to it),
     ledger/{mary,alonzo,babbage}/rules.go (identical bodies: coin part of Shelley + multi-asset part),
     ledger/conway/rules.go   (Conway; Dijkstra forwards to it),
+  `conway.UtxoValidateCertificateDeposits` (Conway and Dijkstra lists, added by a `fix:` commit)
   and `UtxoValidateBadInputsUtxo` (shelley; all later eras forward to it).
-  Amounts are unbounded (`*big.Int` in the Go code). One ordinary token T and the
-  special mint entry under the all-zero policy id with empty asset name are modelled.
+  Amounts are unbounded (`*big.Int` in the Go code). A value is a coin amount plus a
+  bundle of tokens; token id 0 stands for the asset with the all-zero policy id and the
+  empty name (the entry the code treats specially), ids ≥ 1 for ordinary assets.
 -/
 namespace GV.Model.ValueConservation
+
+abbrev Bundle := List (Nat × Nat)
+abbrev MintBundle := List (Nat × Int)
 
 inductive Cert
   | sreg | sdereg | sdeleg | pret | vdeleg
   /-- pool registration: `isNew` = `ls.PoolCurrentState(operator)` returns nil; pool id -/
   | preg (isNew : Bool) (id : Nat)
   /-- Conway certificates carrying an amount (CIP-0094); `recorded` = deposit the ledger
-      state holds for the credential (what the ledger formula refunds) -/
+      state holds (stake credential: not exposed by the LedgerState interface; DRep:
+      `ls.DRepRegistration(cred).Deposit`) -/
   | reg (amt : Nat) | srd (amt : Nat) | vrd (amt : Nat) | svrd (amt : Nat) | dreg (amt : Nat)
   | unreg (amt recorded : Nat) | dunreg (amt recorded : Nat)
 deriving DecidableEq, Repr
@@ -23,12 +29,12 @@ deriving DecidableEq, Repr
 structure In where
   resolvable : Bool
   coin : Nat
-  tok : Nat
+  toks : Bundle
 deriving DecidableEq, Repr
 
 structure Out where
   coin : Nat
-  tok : Nat
+  toks : Bundle
 deriving DecidableEq, Repr
 
 structure Tx where
@@ -38,34 +44,45 @@ structure Tx where
   pd : Nat
   dd : Nat
   fee : Nat
-  mint : Int
-  zmint : Int
+  mint : MintBundle
   don : Nat
   ins : List In
   outs : List Out
   wds : List Nat
   certs : List Cert
   props : List Nat
+  /-- `tx.IsValid()`; with collateral inputs / return / total collateral these are the
+      phase-2 fields, which the conservation rule does not read -/
+  valid : Bool := true
+  coll : List In := []
+  collRet : Option Out := none
+  totalColl : Option Nat := none
 deriving Repr
 
 def sumNat (l : List Nat) : Nat := l.sum
 
+/-- quantity of one asset in a bundle -/
+def qty (b : Bundle) (id : Nat) : Nat := sumNat ((b.filter (fun e => e.1 == id)).map (·.2))
+def mintQty (m : MintBundle) (id : Nat) : Int := ((m.filter (fun e => e.1 == id)).map (·.2)).sum
+
 /-- inputs as the rule sees them: unresolvable inputs are skipped -/
 def insCoin (t : Tx) : Nat := sumNat ((t.ins.filter (·.resolvable)).map (·.coin))
-def insTok (t : Tx) : Nat := sumNat ((t.ins.filter (·.resolvable)).map (·.tok))
+def insTok (t : Tx) (id : Nat) : Nat := sumNat ((t.ins.filter (·.resolvable)).map (fun i => qty i.toks id))
 def outsCoin (t : Tx) : Nat := sumNat (t.outs.map (·.coin))
-def outsTok (t : Tx) : Nat := sumNat (t.outs.map (·.tok))
+def outsTok (t : Tx) (id : Nat) : Nat := sumNat (t.outs.map (fun o => qty o.toks id))
+
+/-- every asset id that occurs in the transaction or in its inputs -/
+def ids (t : Tx) : List Nat :=
+  t.ins.flatMap (fun i => i.toks.map (·.1)) ++ t.outs.flatMap (fun o => o.toks.map (·.1)) ++ t.mint.map (·.1)
 
 /-! ### the rule as coded -/
 
-/-- refunds added to `consumedValue`, Shelley..Babbage: KeyDeposit per stake deregistration -/
 def refundLegacy (kd : Nat) : Cert → Nat
   | .sdereg => kd | _ => 0
 
-/-- deposits added to `producedValue`, Shelley..Babbage (per certificate) -/
-def depositLegacy (kd pd : Nat) : Cert → Nat
+/-- deposits of stake registrations, Shelley..Babbage -/
+def depositLegacy (kd : Nat) : Cert → Nat
   | .sreg => kd
-  | .preg true _ => pd
   | _ => 0
 
 /-- Conway: consumed side uses the amount written in the certificate -/
@@ -75,11 +92,18 @@ def refundConway (kd : Nat) : Cert → Nat
   | .dunreg a _ => a
   | _ => 0
 
-def depositConway (kd pd : Nat) : Cert → Nat
+def depositConway (kd : Nat) : Cert → Nat
   | .sreg => kd
-  | .preg true _ => pd
   | .reg a => a | .srd a => a | .vrd a => a | .svrd a => a | .dreg a => a
   | _ => 0
+
+/-- pool deposits: the loop over the certificates with the `newPools` seen-set
+    (a new pool pays once, a further certificate for it is a re-registration) -/
+def countNew (seen : List Nat) : List Cert → Nat
+  | [] => 0
+  | .preg true id :: rest =>
+    if seen.contains id then countNew seen rest else 1 + countNew (id :: seen) rest
+  | _ :: rest => countNew seen rest
 
 /-- Conway: a certificate amount ≤ 0 is `InvalidCertificateDepositError` -/
 def zeroAmount : Cert → Bool
@@ -93,23 +117,30 @@ deriving DecidableEq, Repr
 def isConway (t : Tx) : Bool := decide (t.era ≥ 6)
 def hasAssets (t : Tx) : Bool := decide (t.era ≥ 3)
 
+/-- the mint entry under the all-zero policy id with empty asset name -/
+def zmint (t : Tx) : Int := mintQty t.mint 0
+
 def consumedCoin (t : Tx) : Int :=
   if isConway t then
     (insCoin t : Int) + sumNat t.wds + sumNat (t.certs.map (refundConway t.kd))
-      + t.zmint            -- "minted ADA": mint[zero policy][""] is added to the consumed coin
+      + zmint t            -- "minted ADA": mint[zero policy][""] is added to the consumed coin
   else
     (insCoin t : Int) + sumNat t.wds + sumNat (t.certs.map (refundLegacy t.kd))
 
 def producedCoin (t : Tx) : Int :=
   if isConway t then
-    (outsCoin t : Int) + t.fee + sumNat (t.certs.map (depositConway t.kd t.pd))
-      + sumNat t.props + t.don
+    (outsCoin t : Int) + t.fee + sumNat (t.certs.map (depositConway t.kd))
+      + ((t.pd * countNew [] t.certs : Nat) : Int) + sumNat t.props + t.don
   else
-    (outsCoin t : Int) + t.fee + sumNat (t.certs.map (depositLegacy t.kd t.pd))
+    (outsCoin t : Int) + t.fee + sumNat (t.certs.map (depositLegacy t.kd))
+      + ((t.pd * countNew [] t.certs : Nat) : Int)
 
-/-- multi-asset part (Mary+): the token T; entries of the mint field under the all-zero
-    policy id are skipped on the consumed side and no output holds them -/
-def tokOk (t : Tx) : Bool := decide ((insTok t : Int) + t.mint = outsTok t)
+/-- multi-asset part (Mary+), per asset: inputs + mint = outputs, where mint entries
+    under the all-zero policy id are skipped -/
+def consumedTok (t : Tx) (id : Nat) : Int :=
+  (insTok t id : Int) + (if id = 0 then 0 else mintQty t.mint id)
+
+def tokOk (t : Tx) : Bool := (ids t).all (fun id => decide (consumedTok t id = (outsTok t id : Int)))
 
 def rule (t : Tx) : Verdict :=
   if isConway t && t.certs.any zeroAmount then .badDeposit
@@ -120,11 +151,18 @@ def rule (t : Tx) : Verdict :=
 /-- `UtxoValidateBadInputsUtxo`: true = BadInputsUtxoError -/
 def badInputs (t : Tx) : Bool := t.ins.any (fun i => !i.resolvable)
 
+/-- `conway.UtxoValidateCertificateDeposits`, per certificate: true = IncorrectCertificateDepositError.
+    The refund of a stake deregistration (`unreg`) is not checked: the state cannot answer. -/
+def depositOff (kd dd : Nat) : Cert → Bool
+  | .reg a => a != kd | .srd a => a != kd | .vrd a => a != kd | .svrd a => a != kd
+  | .dreg a => a != dd
+  | .dunreg a r => a != r
+  | _ => false
+
+def certDepositsBad (t : Tx) : Bool := isConway t && t.certs.any (depositOff t.kd t.dd)
+
 /-! ### the ledger formula (specification) -/
 
-def allIns (t : Tx) : List In := t.ins
-
-/-- distinct new pools among the registration certificates: a pool pays the deposit once -/
 def newPoolIds : List Cert → List Nat
   | [] => []
   | .preg true id :: rest => id :: newPoolIds rest
@@ -145,28 +183,28 @@ def specDepositNoPool (kd dd : Nat) : Cert → Nat
 def specConsumedCoin (t : Tx) : Int :=
   (sumNat (t.ins.map (·.coin)) : Int) + sumNat t.wds + sumNat (t.certs.map (specRefund t.kd))
 
+/-- a new pool pays the deposit once: distinct new pool ids -/
 def specProducedCoin (t : Tx) : Int :=
   (outsCoin t : Int) + t.fee + sumNat (t.certs.map (specDepositNoPool t.kd t.dd))
     + ((t.pd * (newPoolIds t.certs).eraseDups.length : Nat) : Int) + sumNat t.props + t.don
 
-/-- consumed = produced, coin and every asset separately (T, and the zero-policy entry,
-    which no input or output carries) -/
+def specConsumedTok (t : Tx) (id : Nat) : Int :=
+  (sumNat (t.ins.map (fun i => qty i.toks id)) : Int) + mintQty t.mint id
+
+/-- consumed = produced, coin and every asset separately -/
 def specConserved (t : Tx) : Bool :=
   decide (specConsumedCoin t = specProducedCoin t) &&
-  decide ((sumNat (t.ins.map (·.tok)) : Int) + t.mint = outsTok t) &&
-  decide (t.zmint = 0)
+  (ids t).all (fun id => decide (specConsumedTok t id = (outsTok t id : Int)))
 
 /-! ### input classes of the recorded findings -/
 
-/-- Conway certificate amounts that differ from the deposit the formula uses -/
-def certAmountOff (kd dd : Nat) : Cert → Bool
-  | .reg a => a != kd | .srd a => a != kd | .vrd a => a != kd | .svrd a => a != kd
-  | .dreg a => a != dd
-  | .unreg a r => a != r | .dunreg a r => a != r
+/-- a Conway stake deregistration naming a refund other than the recorded deposit
+    (the one certificate amount no listed rule can check) -/
+def unregOff : Cert → Bool
+  | .unreg a r => a != r
   | _ => false
 
-def clsCertAmount (t : Tx) : Bool := t.certs.any (certAmountOff t.kd t.dd)
-def clsDupPool (t : Tx) : Bool := decide ((newPoolIds t.certs).eraseDups.length ≠ (newPoolIds t.certs).length)
-def clsZeroPolicyMint (t : Tx) : Bool := decide (t.zmint ≠ 0)
+def clsCertAmount (t : Tx) : Bool := t.certs.any unregOff
+def clsZeroPolicyMint (t : Tx) : Bool := decide (zmint t ≠ 0)
 
 end GV.Model.ValueConservation
